@@ -427,6 +427,11 @@ def cycle_update_rules(ctx):
 
 
 def rules(ctx):
+    from .C15 import empty_cycle_bookkeeping
+    before = len(ctx.obligations)
+    empty_cycle_bookkeeping(ctx)     # a cycle that is handed out twice loses a vehicle's counter and violation from the totals
+    for o_ in ctx.obligations[before:]:
+        o_.id = o_.id.replace("C09/R", "C09/R3.cycles.R")
     s_sites = common.coupled_updates(ctx, "R1", SCHEDULE, common.SCHEDULE_PAIRS, floor=13)
     t_sites = common.coupled_updates(ctx, "R1", TOUR, common.TOUR_PAIRS, floor=5, exempt=common.TOUR_PAIR_EXEMPT)
     x_sites = common.coupled_updates(ctx, "R1", TRANSITION, common.TRANSITION_PAIRS, floor=6)
